@@ -1207,6 +1207,7 @@ func checkCSVRows(c *core.Ctx) {
 	} else {
 		c.Unknown("CSVROW", sides[1].key+"/cell columns", 0, "cell loop not found")
 	}
+	checkCSVUniqueNames(c, "CSVROW")
 	a, b := sides[0], sides[1]
 	c.Decide(a.comma != "" && a.comma == b.comma && a.header != "" && a.header == b.header, "CSVROW", "datasources/csv/inference↔execution", a.fn.Decl.Pos(), 2,
 		"same separator and the same header decision when inferring and when reading",
@@ -1227,4 +1228,51 @@ func checkCSVRows(c *core.Ctx) {
 	okPass := passed["header"] == "i.header" && passed["separator"] == "i.separator" && passed["fileFieldNames"] == "i.fileFieldNames" && passed["path"] == "i.path"
 	c.Decide(okPass, "CSVROW", "datasources/csv.(*impl).Materialize", m.Decl.Pos(), 4, "path, header flag, separator and file field names are handed on unchanged",
 		fmt.Sprintf("the executing node must get the path, header flag, separator and file field names the schema was inferred with (%v)", passed))
+}
+
+// checkCSVUniqueNames: positions in the pruned field list are matched with file columns by name, so the names must be
+// unique (shared by C23 and C04: the failure only shows once unused columns are pruned).
+func checkCSVUniqueNames(c *core.Ctx, rule string) {
+	fn := c.Prog.Func("datasources/csv", "Creator")
+	if fn == nil {
+		c.Unknown(rule, "datasources/csv.Creator/unique column names", 0, "anchor not found")
+		return
+	}
+	info := fn.Info()
+	unique := false
+	ast.Inspect(fn.Decl.Body, func(n ast.Node) bool {
+		rs, ok := n.(*ast.RangeStmt)
+		if !ok || core.ExprStr(rs.X) != "fieldNames" || rs.Value == nil {
+			return true
+		}
+		v := core.ExprStr(rs.Value)
+		rejects, records := "", ""
+		for _, st := range rs.Body.List {
+			switch st := st.(type) {
+			case *ast.IfStmt:
+				ix, ok := st.Cond.(*ast.IndexExpr)
+				if !ok || core.ExprStr(ix.Index) != v || st.Else != nil || len(st.Body.List) == 0 {
+					continue
+				}
+				if _, isMap := info.TypeOf(ix.X).Underlying().(*types.Map); !isMap {
+					continue
+				}
+				if ret, ok := st.Body.List[len(st.Body.List)-1].(*ast.ReturnStmt); ok && len(ret.Results) > 0 && core.ExprStr(ret.Results[len(ret.Results)-1]) != "nil" {
+					rejects = core.ExprStr(ix.X)
+				}
+			case *ast.AssignStmt:
+				if len(st.Lhs) == 1 && len(st.Rhs) == 1 && core.ExprStr(st.Rhs[0]) == "true" {
+					if ix, ok := st.Lhs[0].(*ast.IndexExpr); ok && core.ExprStr(ix.Index) == v {
+						records = core.ExprStr(ix.X)
+					}
+				}
+			}
+		}
+		if rejects != "" && rejects == records {
+			unique = true
+		}
+		return true
+	})
+	c.Decide(unique, rule, "datasources/csv.Creator/unique column names", fn.Decl.Pos(), 1, "a header naming a column twice is rejected",
+		"the reader selects file columns by name and fills slot i from the i-th selected column: with a repeated header name more columns are selected than the pruned schema has fields (index out of range), so the creator must reject a header that names a column twice")
 }
